@@ -6,6 +6,7 @@
 -/
 import SettlusModel.Proofs.GenesisLemmas
 import SettlusModel.Proofs.Utf8
+import SettlusModel.Generated.Facts
 namespace Settlus.C17
 open Settlus
 
@@ -61,6 +62,13 @@ theorem json_replaces_what_is_not_utf8 :
   · simp [validUtf8, u8]
 
 theorem allRecs_eq_blocks (st : SState) : allRecs st = blocks st.recs st.recTenants := rfl
+
+/-- the side of the tie that is read off the code on every run: both `ValidateBasic` functions accept an ordinary string and refuse one
+that is not UTF-8 in the field that reaches the genesis document (observed by the extractor by calling them) -/
+theorem utf8_guards_in_place : Facts.utf8Guards =
+    ["MsgRecord.RequestId: ascii accepted=true non-utf8 refused=true", "MsgPrevote.Hash: ascii accepted=true non-utf8 refused=true"] := by
+  decide
+
 
 /-- **import of an export succeeds and reproduces the state**: parameters, tenants, every pending record with its id, request id,
 amount, recipients, NFT and creation height in the same per-tenant order, the request-id index, feeder delegations, miss
